@@ -389,8 +389,12 @@ func arcOnEllipse(from [2]float64, cubics []op, a []float64, tol float64) (strin
 		}
 		px, py = cb.f[4], cb.f[5]
 	}
+	// float32 coordinates: a point is known only to one ulp of the largest coordinate; relative to the
+	// smaller radius that is 2*2^-23*max|coord|/min(rx,ry) of radial deviation the curve is not responsible for
+	maxC := math.Max(math.Max(math.Abs(cx), math.Abs(cy))+rx+ry, 1)
+	tol += 2 * maxC / (1 << 23) / math.Min(rx, ry)
 	if maxDev > tol {
-		return fmt.Sprintf("arc leaves the ellipse (center %.4g,%.4g radii %.4g,%.4g): radial deviation %.3g > %.0e", cx, cy, rx, ry, maxDev, tol), maxDev
+		return fmt.Sprintf("arc leaves the ellipse (center %.4g,%.4g radii %.4g,%.4g): radial deviation %.3g > %.3g", cx, cy, rx, ry, maxDev, tol), maxDev
 	}
 	if math.Abs(total-dtheta) > 0.02 {
 		return fmt.Sprintf("arc sweeps %.4f rad, the flags select %.4f rad", total, dtheta), maxDev
